@@ -17,7 +17,9 @@ ASSUME = [
     "anonymous input lifetimes are generated only where no bound can involve them",
     "in the main ('spelled') mode every bound rustc would infer from a definition is also written on the definition and on the method, so the tool's environment and rustc's coincide; "
     "the gap between the two without that spelling is the known finding listed in known_findings.json and is probed separately",
-    "managed-backend edge lists are parsed from generated text (js/dart/kotlin) and nb::keep_alive indices (nanobind); those bindings are not executed",
+    "managed-backend edge lists are parsed from generated text (js/dart/kotlin; per output lifetime) and nb::keep_alive indices (nanobind; per argument); dart/kotlin/nanobind bindings are not executed",
+    "js is also executed (node, stub wasm module) for methods returning an opaque: the private edge arrays of the returned object are read through the V8 inspector and must "
+    "contain every input opaque (parameters and the opaque fields of by-value struct parameters under the relevant definition lifetime) the model requires",
 ]
 
 METHOD_LTS = ["a", "b", "c", "d"]
@@ -546,9 +548,37 @@ def dart_edges(text, method):
     return out
 
 
+def kotlin_edges(text, method):
+    """{lifetime: [terms]} from `val aEdges: List<Any?> = o.aEdges + listOf(g)` inside a Kotlin method (`self` for selfEdges)"""
+    m = re.search(r"\n\s*fun %s\((.*?)(?=\n\s*(?:@JvmStatic\s*\n\s*)?fun |\Z)" % re.escape(method), text, re.S)
+    if not m:
+        return None
+    out = {}
+    for em in re.finditer(r"val (\w+)Edges: List<Any\??> = (.*)", m.group(1)):
+        out[em.group(1)] = [x.strip() for x in em.group(2).split(" + ") if x.strip() and x.strip() != "listOf()"]
+    return out
+
+
+def nanobind_keepalive(text, cls, method):
+    """argument indices kept alive by the returned value (`nb::keep_alive<0, k>`), or None"""
+    m = re.search(r'\.def(?:_static)?\("%s", &%s::%s\b([^\n]*)' % (re.escape(method), re.escape(cls), re.escape(method)), text)
+    if not m:
+        return None
+    return {int(k) for k in re.findall(r"nb::keep_alive<0, (\d+)>", m.group(1))}
+
+
 def entry_matches(entries, param, kind, slot, lang):
     """does an emitted edge list mention the input?"""
     p = "this" if param == "self" else camel(param)
+    if lang == "kotlin":
+        for e in entries:
+            if kind == "opaque" and e == "listOf(%s)" % p:
+                return True
+            if kind == "slice" and e in ("listOf(%sMem)" % p, "listOf(%s)" % p, "listOf(%sSlice)" % p):
+                return True
+            if kind == "struct" and e == "%s.%sEdges" % (p, slot):
+                return True
+        return False
     for e in entries:
         if kind == "opaque" and e == p:
             return True
@@ -559,12 +589,71 @@ def entry_matches(entries, param, kind, slot, lang):
     return False
 
 
+# ---- level 4: the generated JS is executed and the edge arrays of the returned object are read back --------------------------
+def struct_opaque_paths(u, name, slot):
+    """paths of the opaque references inside a by-value struct that live under the definition's lifetime `slot`"""
+    h = ["h"] if u["st2_bound"] == "field" else []
+    if name == "St1":
+        return ["o"]
+    if name == "St2":
+        return (["f"] if slot == "p" else ["g"]) + h
+    if name == "Outer":
+        return ["s." + x for x in struct_opaque_paths(u, "St2", "p" if slot == "m" else "q")] + (["t.o"] if slot == "n" else [])
+    raise ValueError(name)
+
+
+def js_value(u, label, t):
+    k = t[0]
+    if k in ("ref", "optref"):
+        return {"k": "opaque", "ty": t[2], "label": label}
+    if k in ("slice", "optslice"):
+        return {"k": "str", "v": "ab"} if t[2] in ("str", "DiplomatStr16") else {"k": "slice", "v": [1, 2, 3]}
+    if k in ("struct", "optstruct"):
+        name = t[1]
+        if name == "St1":
+            f = {"o": js_value(u, label + ".o", ["ref", None, "Op", []]), "s": {"k": "str", "v": "xy"}}
+        elif name == "St2":
+            f = {"f": js_value(u, label + ".f", ["ref", None, "Op", []]), "g": js_value(u, label + ".g", ["ref", None, "Op", []])}
+            if u["st2_bound"] == "field":
+                f["h"] = js_value(u, label + ".h", ["ref", None, "OpA", [None]])
+        else:
+            f = {"s": js_value(u, label + ".s", ["struct", "St2", [None, None]]), "t": js_value(u, label + ".t", ["struct", "St1", [None]])}
+        return {"k": "struct", "ty": name, "fields": f}
+    raise ValueError(t)
+
+
+def js_runtime_spec(u, sigs):
+    """(spec for node/js-edges.mjs, [(index in sigs, expected labels)]) for the signatures returning an opaque"""
+    methods, expect = [], []
+    for i, s in enumerate(sigs):
+        if s["ret"][0] not in ("ref", "optref", "box"):
+            continue
+        exp, _ = expected_map(s)
+        want = set()
+        for edges in exp.values():
+            for (n, kind, slot) in edges:
+                if kind == "opaque":
+                    want.add(n)
+                elif kind == "struct":
+                    t = dict((a, b) for a, b in s["params"])[n]
+                    want.update(n + "." + p_ for p_ in struct_opaque_paths(u, t[1], slot))
+        slf = {"k": "opaque", "ty": s["self_ty"], "label": "self"} if s["self"] else None
+        methods.append({"cls": s["self_ty"], "name": "m%d" % i, "self": slf, "args": [js_value(u, n, t) for n, t in s["params"]]})
+        expect.append((i, sorted(want)))
+    return {"methods": methods}, expect
+
+
 def backend_worker(widx, seed, params):
     art = build.ensure_repo_artifacts()
     work = build.workdir("c04-be-w%d" % widx)
     acc = pbt.Acc("C04", max_violations=4)
+    pbt.explore(batches(), lambda case: backend_body(art, work, acc, case), params["n"], seed)
+    build.rm_workdir(work)
+    return acc.result()
 
-    def body(case):
+
+def backend_body(art, work, acc, case):
+    if True:
         if acc.full():
             return
         u, sigs = case
@@ -601,10 +690,84 @@ def backend_worker(widx, seed, params):
                         msg = None if not missing else "%s: the edge list for '%s is %s and does not keep %s alive" % (b, rlt, entries, sorted(map(str, missing)))
                     if msg:
                         acc.violation("%s\n%s\n--- lib.rs ---\n%s" % (sig_text(s), msg, bridge_source(u, [s])), {"universe": u, "sig": s, "kind": "backend", "backend": b}, signature="backend|%s|%s" % (b, msg.split("'")[0][:30]))
+            if b == "js":
+                from .. import compilers
+                compilers.install_js_stub(r.outdir)
+                spec, expect = js_runtime_spec(u, sigs)
+                if spec["methods"]:
+                    sf = os.path.join(work, "edges-spec.json")
+                    json.dump(spec, open(sf, "w"))
+                    rc, so, se = compilers.node_run(os.path.join(compilers.NODE_DIR, "js-edges.mjs"), [r.outdir, sf])
+                    try:
+                        res = json.loads(so.strip().split("\n")[-1])
+                    except (ValueError, IndexError):
+                        raise build.Inconclusive("js-edges driver failed: " + (se or so)[-400:])
+                    for (i, want), got in zip(expect, res):
+                        s = sigs[i]
+                        acc.case(["js-run", sig_text(s)], nontrivial(s) or any("." in w for w in want), ["backend:js-executed"], sample={"backend": "js (executed)", "signature": sig_text(s), "kept_alive": got.get("all"), "required": want})
+                        msg = None
+                        if "threw" in got:
+                            msg = "js: calling the generated method throws: %s" % got["threw"][:300]
+                        elif got.get("ret") == "object":
+                            missing = [w for w in want if w not in got["all"]]
+                            if missing:
+                                msg = "js (executed): the returned object's edge arrays hold %s and do not keep %s alive" % (got["edges"], missing)
+                        if msg:
+                            acc.violation("%s\n%s\n--- lib.rs ---\n%s" % (sig_text(s), msg, bridge_source(u, [s])), {"universe": u, "sig": s, "kind": "backend", "backend": "js-run"},
+                                          signature="backend|js-run|%s" % re.sub(r"\d+", "N", msg)[:40])
 
-    pbt.explore(batches(), body, params["n"], seed)
-    build.rm_workdir(work)
-    return acc.result()
+
+        # kotlin and nanobind accept a smaller grammar (no Option<struct>, no optional slices): they get their own file
+        # (a struct in the Err arm needs kotlin's `error` attribute: a recorded C15 finding when it is missing)
+        ksigs = [s for s in sigs if not any(t[0] in ("optstruct", "optslice") for _, t in s["params"]) and s["ret"][0] != "opt" and not (s["ret"][0] == "result" and s["ret"][2])]
+        if ksigs:
+            entry = os.path.join(work, "libk.rs")
+            open(entry, "w").write(bridge_source(u, ksigs))
+            for b in ("kotlin", "nanobind"):
+                r = tool.run_backend(art, b, entry, os.path.join(work, "out-" + b))
+                if not r.ok:
+                    acc.labels["%s:%s" % (b, r.classify())] += 1
+                    continue
+                texts = {}
+                for dp, _, fns in os.walk(r.outdir):
+                    for fn in fns:
+                        if fn.endswith(".kt") or fn.endswith("_ext.cpp"):
+                            texts[fn] = open(os.path.join(dp, fn)).read()
+                for i, s in enumerate(ksigs):
+                    exp, _ = expected_map(s)
+                    if b == "kotlin":
+                        got = kotlin_edges(texts.get(s["self_ty"] + ".kt", ""), "m%d" % i)
+                        if got is None:
+                            acc.labels["kotlin:method-not-found"] += 1
+                            continue
+                        for rlt, want in exp.items():
+                            acc.case([b, sig_text(s), rlt], nontrivial(s), ["backend:kotlin"], sample={"backend": b, "signature": sig_text(s), "lifetime": rlt, "emitted": got.get(rlt)})
+                            if not want:
+                                continue
+                            # a returned reference keeps its own borrow's inputs in `selfEdges`
+                            entries = (got.get(rlt) or []) + (got.get("self") or [])
+                            missing = [w for w in want if not entry_matches(entries, w[0], w[1], w[2], "kotlin")]
+                            if missing:
+                                msg = "kotlin: the edge lists for '%s are %s and do not keep %s alive" % (rlt, entries, sorted(map(str, missing)))
+                                acc.violation("%s\n%s\n--- lib.rs ---\n%s" % (sig_text(s), msg, bridge_source(u, [s])), {"universe": u, "sig": s, "kind": "backend", "backend": b}, signature="backend|kotlin|%s" % msg.split("'")[0][:30])
+                    else:
+                        keep = None
+                        for t_ in texts.values():
+                            keep = nanobind_keepalive(t_, s["self_ty"], "m%d" % i)
+                            if keep is not None:
+                                break
+                        if keep is None:
+                            acc.labels["nanobind:method-not-found"] += 1
+                            continue
+                        names = (["self"] if s["self"] else []) + [n for n, _ in s["params"]]
+                        need = set()
+                        for rlt, want in exp.items():
+                            need.update(w[0] for w in want)
+                        acc.case([b, sig_text(s)], nontrivial(s), ["backend:nanobind"], sample={"backend": b, "signature": sig_text(s), "keep_alive": sorted(keep)})
+                        missing = [n for n in sorted(need) if (names.index(n) + 1) not in keep]
+                        if missing:
+                            msg = "nanobind: keep_alive indices %s do not keep %s alive (arguments: %s)" % (sorted(keep), missing, names)
+                            acc.violation("%s\n%s\n--- lib.rs ---\n%s" % (sig_text(s), msg, bridge_source(u, [s])), {"universe": u, "sig": s, "kind": "backend", "backend": b}, signature="backend|nanobind|keep_alive")
 
 
 def probe_known(pr):
@@ -648,6 +811,17 @@ def replay(ctx):
     u, s = c["universe"], c["sig"]
     s["declared"] = [tuple(x) for x in s["declared"]]
     s["implied"] = [tuple(x) for x in s["implied"]]
+    if c.get("kind") == "backend":
+        art = build.ensure_repo_artifacts()
+        work = build.workdir("c04-replay")
+        acc = pbt.Acc("C04", max_violations=10)
+        backend_body(art, work, acc, (u, [s]))
+        build.rm_workdir(work)
+        for v in acc.violations:
+            print(v["message"][:1500])
+        if not acc.violations:
+            print("replay ok: the backends' edges keep the required inputs alive")
+        return {"violations": [{"replay": ctx.replay, "message": v["message"][:1200]} for v in acc.violations]}
     pr = probe_mod.Probe()
     src = bridge_source(u, [s])
     rep = pr.ask(src, support=ALL_TRUE, borrow=True)
